@@ -291,11 +291,6 @@ package boltz
 //@   nosafety
 //@   modifies *
 
-//@ func (*setIndex).deleteIndexKey
-//@   props C07
-//@   errflow
-//@   nosafety
-//@   modifies *
 
 //@ func (*systemMutateContext).runPreCommitActions
 //@   props C07
